@@ -141,6 +141,7 @@ pub struct Th {
     /// peer, seen only as an OS-level block). If one of them panics, salsa turns that into
     /// `Cancelled` for the waiter.
     pub waited_on: Vec<Tid>,
+    pub query_begin_step: u64,
     pub salsa_events: u64,
     /// Inject a panic at this (1-based) salsa event of the thread.
     pub crash_at: Option<u64>,
@@ -169,6 +170,7 @@ impl Th {
             in_query: false,
             cancel_ok: false,
             waited_on: Vec::new(),
+            query_begin_step: 0,
             salsa_events: 0,
             crash_at: None,
             crashed: false,
@@ -849,10 +851,12 @@ impl Controller for Handle {
         match info.kind {
             PKind::QueryBegin => {
                 let pending = st.write_pending;
+                let step_now = st.step;
                 let t = st.threads.get_mut(&who).unwrap();
                 t.in_query = true;
                 t.cancel_ok = pending;
                 t.waited_on.clear();
+                t.query_begin_step = step_now;
                 t.steps_while_pending = 0;
             }
             PKind::QueryEnd => {
